@@ -372,6 +372,15 @@ class Interp:
             if fnode.args.kwarg:
                 named = set(params) | {a.arg for a in fnode.args.kwonlyargs}
                 env[fnode.args.kwarg.arg] = {k_: v_ for k_, v_ in (kwargs or {}).items() if k_ not in named}
+            from .model import walk_no_nested as _wnn
+            is_gen = any(isinstance(n_, (ast.Yield, ast.YieldFrom)) for n_ in _wnn(fnode))
+            if is_gen and any((dotted(d_) or "").split(".")[-1] == "contextmanager" for d_ in fnode.decorator_list):
+                return _GenCtx(self, fnode, env)
+            if is_gen:
+                # a generator function: evaluated eagerly, the caller gets the list of yielded values
+                env["__yielded__"] = []
+                self.block(fnode.body, env)
+                return env["__yielded__"]
             r = self.block(fnode.body, env)
             return r.value if isinstance(r, _Ret) else None
         finally:
@@ -390,6 +399,16 @@ class Interp:
             env[st.name] = _Closure(st, env)
             return None
         if isinstance(st, ast.Expr):
+            if isinstance(st.value, ast.Yield):
+                if "__yielded__" not in env:
+                    raise AnalysisError("absint: yield outside a generator function")
+                env["__yielded__"].append(self.expr(st.value.value, env) if st.value.value is not None else None)
+                return None
+            if isinstance(st.value, ast.YieldFrom):
+                if "__yielded__" not in env:
+                    raise AnalysisError("absint: yield from outside a generator function")
+                env["__yielded__"].extend(self.iterate(self.expr(st.value.value, env)))
+                return None
             if not isinstance(st.value, ast.Constant):
                 self.expr(st.value, env)
             return None
@@ -450,7 +469,7 @@ class Interp:
             mgrs = []
             for item in st.items:
                 m_ = self.expr(item.context_expr, env)
-                if not isinstance(m_, (PyNative, _Suppress)) or not hasattr(m_, "__enter__"):
+                if not isinstance(m_, (PyNative, _Suppress, _GenCtx)) or not hasattr(m_, "__enter__"):
                     raise AnalysisError(f"absint: context manager `{ast.unparse(item.context_expr)[:40]}` not modelled")
                 v = m_.__enter__()
                 mgrs.append(m_)
@@ -584,6 +603,8 @@ class Interp:
             if all(isinstance(x, int) and not isinstance(x, bool) for x in it):
                 # ints hash to themselves (no hash seed): the order is CPython's slot order, reproduced by the analysis host's own CPython
                 return list(it)
+            if len(it) <= 1:
+                return list(it)  # a single element has one order
             raise AnalysisError("absint: iteration over a set (order not defined)")
         raise AnalysisError(f"absint: cannot iterate {type(it).__name__}")
 
@@ -615,6 +636,12 @@ class Interp:
                 raise Raised("ZeroDivisionError")
             except KeyError:
                 raise AnalysisError("absint: unsupported operator on symbolic values")
+        if isinstance(op, ast.BitOr) and all(isinstance(x, (type, _Cls, tuple)) for x in (a, b)):
+            # `A | B` of classes (a union type used as second argument of isinstance): the tuple of classes
+            flat_ = []
+            for x in (a, b):
+                flat_.extend(x if isinstance(x, tuple) else [x])
+            return tuple(flat_)
         if isinstance(a, (set, frozenset)) and isinstance(b, (set, frozenset)):
             if isinstance(op, ast.BitOr):
                 return a | b
@@ -824,6 +851,8 @@ class Interp:
                 if m is not None:
                     if any(isinstance(dc, ast.Name) and dc.id == "property" for dc in m.node.decorator_list):
                         return self.call_f(m, [base])
+                    if any(isinstance(dc, ast.Name) and dc.id == "staticmethod" for dc in m.node.decorator_list):
+                        return m  # looked up on an instance, a static method is the plain function
                     return _Bound(base, m)
                 if e.attr == "_replace":
                     # NamedTuple._replace on a record node: a copy with the given fields changed
@@ -1075,6 +1104,17 @@ class Interp:
                 raise
             except (TypeError, ValueError, KeyError, IndexError, ZeroDivisionError, AttributeError) as ex:
                 raise Raised(f"{type(ex).__name__}: {str(ex)[:60]}")
+        if fn == "issubclass" and len(vals) == 2:
+            a_, b_ = vals
+            bs_ = b_ if isinstance(b_, tuple) else (b_,)
+            if isinstance(a_, _Cls) and all(isinstance(t_, (_Cls, type)) for t_ in bs_):
+                chain = self.class_chain(Node(a_.name))
+                return any(isinstance(t_, _Cls) and t_.name in chain for t_ in bs_)
+            if isinstance(a_, type) and all(isinstance(t_, type) for t_ in bs_):
+                return issubclass(a_, bs_)
+            if isinstance(a_, type) and all(isinstance(t_, (_Cls, type)) for t_ in bs_):
+                return any(isinstance(t_, type) and issubclass(a_, t_) for t_ in bs_)
+            raise AnalysisError("absint: issubclass of values that are not classes")
         if fn == "len":
             if isinstance(vals[0], Node):
                 raise AnalysisError("len of node")
@@ -1145,6 +1185,19 @@ class Interp:
                 except (TypeError, ValueError) as ex:
                     raise Raised(f"{type(ex).__name__}: {ex}")
             return int(x) if fn == "int" else float(x)
+        if fn in ("functools.reduce", "reduce") and len(vals) in (2, 3):
+            seq = self.iterate(vals[1])
+            if len(vals) == 3:
+                acc = vals[2]
+            elif seq:
+                acc, seq = seq[0], seq[1:]
+            else:
+                raise Raised("TypeError: reduce() of empty iterable with no initial value")
+            for x_ in seq:
+                acc = self.apply(vals[0], [acc, x_])
+            return acc
+        if fn == "next" and len(vals) == 2 and isinstance(vals[0], list):
+            return vals[0][0] if vals[0] else vals[1]
         if fn == "bool" and len(vals) == 1:
             return self.truth(vals[0])
         if fn == "hash" and len(vals) == 1:
@@ -1380,6 +1433,47 @@ class _Suppress:
             return False
         kind = _exc_kind(getattr(ex, "what", ""))
         return any(k in ("Exception", "BaseException") or k == kind or k in _EXC_PARENTS.get(kind, ()) for k in self.kinds)
+
+
+class _GenCtx:
+    """A function decorated with contextlib.contextmanager, called: the statements before its single `yield` run on entry, those after
+    it on a normal exit; a `try: yield finally:` runs the finally part on every exit."""
+
+    def __init__(self, it, fnode, env):
+        self.it, self.fnode, self.env = it, fnode, env
+        self.post = None
+        self.fin = None
+
+    def __enter__(self):
+        body = self.fnode.body
+        for k, st in enumerate(body):
+            if isinstance(st, ast.Expr) and isinstance(st.value, ast.Yield):
+                r = self.it.block(body[:k], self.env)
+                if r is not None:
+                    raise AnalysisError("absint: context manager returns before yielding")
+                self.post = body[k + 1:]
+                return self.it.expr(st.value.value, self.env) if st.value.value is not None else None
+            if isinstance(st, ast.Try) and any(isinstance(x, ast.Expr) and isinstance(x.value, ast.Yield) for x in st.body) and not st.handlers:
+                r = self.it.block(body[:k], self.env)
+                if r is not None:
+                    raise AnalysisError("absint: context manager returns before yielding")
+                j = next(i for i, x in enumerate(st.body) if isinstance(x, ast.Expr) and isinstance(x.value, ast.Yield))
+                self.it.block(st.body[:j], self.env)
+                self.post = list(st.body[j + 1:]) + list(st.orelse)
+                self.fin = (list(st.finalbody), body[k + 1:])
+                y = st.body[j].value.value
+                return self.it.expr(y, self.env) if y is not None else None
+        raise AnalysisError(f"absint: context manager {self.fnode.name}: the place of its yield is not modelled")
+
+    def __exit__(self, et, ex, tb):
+        if et is None:
+            self.it.block(self.post or [], self.env)
+            if self.fin:
+                self.it.block(self.fin[0], self.env)
+                self.it.block(self.fin[1], self.env)
+        elif self.fin:
+            self.it.block(self.fin[0], self.env)
+        return False
 
 
 class _Ret:
